@@ -92,11 +92,36 @@ func c14ManyStrings(c *mon.Ctx, r *mon.Rand) {
 	c.Distinct(mon.Hash64("many-strings", fmt.Sprint(G, per, opts.Protocol)))
 }
 
+var m3LastCreators atomic.Value // the "created by" lines of the last probe (for witnesses)
+
+// m3Goroutines counts the goroutines that library code started and that are
+// still executing library code: the reporter's loops and anything else (the
+// harness's own goroutines are created by main.*). A goroutine of NewReporter
+// that has left its loop and signalled its wait group (only the closure frame
+// is left) is in its last instructions and not counted.
 func m3Goroutines() int {
 	buf := make([]byte, 1<<20)
 	n := runtime.Stack(buf, true)
-	s := string(buf[:n])
-	return strings.Count(s, "m3.(*reporter).process(") + strings.Count(s, "m3.(*reporter).timeLoop(")
+	var creators []string
+	count := 0
+	for _, blk := range strings.Split(string(buf[:n]), "\n\n") {
+		at := strings.Index(blk, "\ncreated by github.com/uber-go/tally/v4")
+		if at < 0 {
+			continue
+		}
+		working := false
+		for _, ln := range strings.Split(blk[:at], "\n") {
+			if strings.HasPrefix(ln, "github.com/uber-go/tally/v4") && !strings.HasPrefix(ln, "github.com/uber-go/tally/v4/m3.NewReporter.func") {
+				working = true
+			}
+		}
+		if working {
+			count++
+			creators = append(creators, strings.SplitN(blk[at+1:], "\n", 2)[0])
+		}
+	}
+	m3LastCreators.Store(strings.Join(creators, "; "))
+	return count
 }
 
 func c14Life(c *mon.Ctx, r *mon.Rand) {
@@ -188,7 +213,13 @@ func c14Life(c *mon.Ctx, r *mon.Rand) {
 						if pr.Bool() {
 							// histograms allocated by several producers at once with one and the
 							// same tag set (served from the reporter's tag cache)
-							hh := rep.AllocateHistogram(fmt.Sprintf("hdyn%d", pr.Intn(6)), map[string]string{"shared": "tags", "zone": "z"}, tally.ValueBuckets{1, 2, 3})
+							// (0-16 tags: the two bucket tags are added to tag lists shorter
+							// than, as long as and longer than the pooled scratch slices)
+							ht := map[string]string{}
+							for k, n := 0, pr.Intn(6)*3+pr.Intn(2); k < n; k++ {
+								ht[[]string{"shared", "zone", "t2", "t3", "t4", "t5", "t6", "t7", "t8", "t9", "t10", "t11", "t12", "t13", "t14", "t15"}[k]] = "z"
+							}
+							hh := rep.AllocateHistogram(fmt.Sprintf("hdyn%d", pr.Intn(6)), ht, tally.ValueBuckets{1, 2, 3})
 							hh.ValueBucket(1, 2).ReportSamples(1)
 						} else {
 							rep.AllocateCounter(fmt.Sprintf("dyn%d", pr.Intn(20)), map[string]string{"p": fmt.Sprint(p)}).ReportCount(1)
@@ -317,7 +348,7 @@ func c14Life(c *mon.Ctx, r *mon.Rand) {
 		bad("close-results", fmt.Sprintf("%d of %d Close callers got nil (exactly the first must, the others an error): %v", nilCount, nClose, closeErrs))
 	}
 	if aliveAtReturn > 0 {
-		bad("m3-goroutine-alive-when-close-returned", "a process/timeLoop goroutine was still on a stack when Close returned")
+		bad("m3-goroutine-alive-when-close-returned", fmt.Sprintf("a goroutine the reporter started was still on a stack when Close returned (goroutines started by the library at the last probe: %v)", m3LastCreators.Load()))
 	}
 	// calls after Close are no-ops
 	nFlushBefore := len(env.flushes())
